@@ -492,6 +492,31 @@ func c16Fin(ca *mem.Conn, fin string) {
 // performs session operations, other sessions are live on the peer, and the observation also says
 // what the hub holds under every id the connection ever had.
 func c16RunSrv(line string, f map[string]string, out *hx.Out, ext bool) (string, bool) {
+	obs, nt, lost := c16RunSrvOnce(line, f, out, ext)
+	if lost == "" {
+		return obs, nt
+	}
+	// "accepted, but the calls pipelined behind the auth frame got no reply" is also what a stalled
+	// process looks like (the peer's 150 ms session / context ages expire while the harness is
+	// descheduled). A loss caused by the code is deterministic: report it only if it shows on
+	// every one of three runs of the case.
+	for i := 0; i < 2; i++ {
+		scratch := &hx.Out{Hist: map[string]int{}}
+		obs2, nt2, lost2 := c16RunSrvOnce(line, f, scratch, ext)
+		if lost2 == "" {
+			out.Count("noise:pipelined-lost-not-reproduced")
+			for _, v := range scratch.Viol {
+				out.Violate(v.Line, v.Oracle, v.Detail, v.Sig)
+			}
+			return obs2, nt2
+		}
+	}
+	out.Violate(line, "pipelined-not-lost", lost, "c16:pipelined-lost")
+	return obs, nt
+}
+
+// c16RunSrvOnce: one run; lost != "" when the pipelined calls of an accepted connection got no reply.
+func c16RunSrvOnce(line string, f map[string]string, out *hx.Out, ext bool) (obsLine string, nontrivial bool, lost string) {
 	k := c16Script{nrecv: c16Atoi(f["nrecv"]), prop: f["prop"] == "1", verdict: f["verdict"],
 		pre: c16ParseOps(f["pre"]), post: c16ParseOps(f["post"])}
 	var others []int
@@ -766,7 +791,7 @@ func c16RunSrv(line string, f map[string]string, out *hx.Out, ext bool) (string,
 			}
 		}
 		if n != ncall {
-			out.Violate(line, "pipelined-not-lost", fmt.Sprintf("%d pipelined calls, %d replies", ncall, n), "c16:pipelined-lost")
+			lost = fmt.Sprintf("%d pipelined calls, %d replies", ncall, n)
 		}
 	}
 
@@ -804,7 +829,7 @@ func c16RunSrv(line string, f map[string]string, out *hx.Out, ext bool) (string,
 	out.Count("fin:" + fin)
 	out.Count("tim:" + strconv.Itoa(tim))
 	out.Count("family:" + f["fam"])
-	return obs, len(bytes_) > 0 || fin != "close"
+	return obs, len(bytes_) > 0 || fin != "close", lost
 }
 
 // c16OneLis is a listener that yields one connection and then blocks until closed.
